@@ -336,7 +336,7 @@ Proof.
       rewrite checked_sub_some by lia. rewrite fmt_pad_some by lia. eexists; split; [reflexivity|lia]. }
   destruct (map_opt_some (fun p : key * hcmd =>
       match subcmd dw (sc_str (snd p)) nl L with
-      | Some pad => Some (mkRow (hc_name (snd p)) (sc_str (snd p)) pad nl [])
+      | Some pad => Some (mkRow (hc_name (snd p)) (sc_str (snd p)) pad nl [] [] [])
       | None => None end) ord) as [rows Hrows].
   { intros p Hp. destruct (Hone p Hp) as [pad [E _]]. rewrite E. eauto. }
   exists rows. split; [exact Hrows|].
@@ -543,10 +543,19 @@ End P3.
 (** ---- the build step establishes [arg_ok] ---- *)
 Definition spec_arg_ok (a : harg) : bool := implb (ha_is_positional a) (ha_takes_value (harg_build a)).
 
+Lemma harg_default_pos a : ha_is_positional (harg_default a) = ha_is_positional a.
+Proof. unfold harg_default. destruct (action_default_value _); [destruct (is_nil _)|]; reflexivity. Qed.
+Lemma harg_default_num a : ha_num (harg_default a) = ha_num a.
+Proof. unfold harg_default. destruct (action_default_value _); [destruct (is_nil _)|]; reflexivity. Qed.
 Lemma harg_build_pos a : ha_is_positional (harg_build a) = ha_is_positional a.
-Proof. unfold harg_build. destruct (ha_num a); [|destruct (1 <? _)]; reflexivity. Qed.
+Proof.
+  unfold harg_build. rewrite <- (harg_default_pos a).
+  destruct (ha_num (harg_default a)); [|destruct (1 <? _)]; reflexivity.
+Qed.
 Lemma harg_build_num a : is_some (ha_num (harg_build a)) = true.
-Proof. unfold harg_build. destruct (ha_num a) eqn:E; [rewrite E; reflexivity|destruct (1 <? _); reflexivity]. Qed.
+Proof.
+  unfold harg_build. destruct (ha_num (harg_default a)) eqn:E; [rewrite E; reflexivity|destruct (1 <? _); reflexivity].
+Qed.
 
 Lemma build_hargs_ok args : forall n b,
   (forall a, In a args -> spec_arg_ok a = true) -> In b (build_hargs args n) -> arg_ok b = true.
